@@ -371,6 +371,23 @@ func (in *inliner) inlineExprs(n ast.Node) {
 // are replaced by the instantiated body
 func (in *inliner) inlineStmts(list []ast.Stmt, depth int) []ast.Stmt {
 	var out []ast.Stmt
+	// `if v := helper(...); cond { ... }`: the init clause is an ordinary assignment executed before the
+	// test - hoist it so that it is inlined like one (the analyses do not depend on the scope of v)
+	var hoisted []ast.Stmt
+	for _, s := range list {
+		if is, ok := s.(*ast.IfStmt); ok && is.Init != nil {
+			if as, ok := is.Init.(*ast.AssignStmt); ok && len(as.Rhs) == 1 {
+				if c, ok := unparen(as.Rhs[0]).(*ast.CallExpr); ok {
+					if _, _, _, _, ok := in.calleeR(c); ok {
+						hoisted = append(hoisted, as)
+						is.Init = nil
+					}
+				}
+			}
+		}
+		hoisted = append(hoisted, s)
+	}
+	list = hoisted
 	for _, s := range list {
 		var call *ast.CallExpr
 		var lhs []ast.Expr
